@@ -347,7 +347,10 @@ class C06(Prop):
             for i in range(count):
                 lo = rng.randrange(0, 100)
                 hi = rng.randrange(lo, 255)
-                slots.append([rng.randrange(lo, hi + 1), lo, hi])
+                if rng.random() < 0.15:
+                    slots.append([255, lo, 255])            # a value byte of 0xFF is a value like any other while the limits are defined
+                else:
+                    slots.append([rng.randrange(lo, hi + 1), lo, hi])
             reports.append(slots)
         last = reports[-1][pidx - first]
         # (when the first report is handled on its own, the subscribers are slow on their SECOND call: the first of the burst)
@@ -356,7 +359,7 @@ class C06(Prop):
         for r in reports:
             x = r[pidx - first]
             cands += [x[1], x[2], x[2] + 1, max(0, x[1] - 1), (x[1] + x[2]) // 2]
-        value = rng.choice([c for c in cands if 0 <= c <= 254])
+        value = rng.choice([c for c in cands if 0 <= c <= 255])
         return {"kind": "reports", "product": product, "first": first, "pidx": pidx, "reports": reports, "slow": slow, "value": value,
                 "last": last, "b0": rng.randrange(256), "settled_first": settled_first}
 
